@@ -20,9 +20,92 @@ type c06Stream struct {
 	UnitOf []int // unit index (within its PID) of each packet
 	PSI    map[uint16]bool
 	Units  map[uint16][][]byte // unit bytes per PID (to map a delivered datum back to its unit)
+	// LooseLoss: PIDs whose packets hold parts of several sections (continuous packing): a loss may take any of the
+	// sections with it; what is still delivered has to be sections of the loss-free output, in order, nothing else
+	LooseLoss map[uint16]bool
+}
+
+// c06ContinuousSI: an SDT PID with sections packed back to back. The first section fills its packet exactly; the
+// second runs over into the packet in which the third starts, and what it has there is - inside the private bytes
+// of its last descriptor - a complete small section with a correct CRC_32, followed by its own CRC_32. Lose the
+// packet in between and the bytes in front of the third section's pointer target follow a unit they do not belong to.
+func c06ContinuousSI(seed int64) *c06Stream {
+	sized := func(ts uint16, total int) []byte {
+		d := &astits.SDTData{TransportStreamID: ts, OriginalNetworkID: 0x22}
+		svc := &astits.SDTDataService{ServiceID: ts + 1, RunningStatus: 4}
+		d.Services = []*astits.SDTDataService{svc}
+		base := len(SecSDT(d, ref.SecHdr{CNI: true}))
+		rest := total - base
+		var ds []*astits.Descriptor
+		for rest > 0 { // descriptors of at most 200 body bytes
+			n := rest - 2
+			if n > 200 {
+				n = 200
+			}
+			if rest-2-n == 1 { // never leave a single byte (a descriptor needs two)
+				n--
+			}
+			ds = append(ds, &astits.Descriptor{Tag: 0x85, UserDefined: bytes.Repeat([]byte{0x41}, n)})
+			rest -= 2 + n
+		}
+		svc.Descriptors = fixLens(ds)
+		s := SecSDT(d, ref.SecHdr{CNI: true})
+		if len(s) != total {
+			panic(fmt.Sprintf("c06ContinuousSI: sizing %d != %d", len(s), total))
+		}
+		return s
+	}
+	inner := SecSDT(&astits.SDTData{TransportStreamID: 0x0bad, OriginalNetworkID: 0x8888, Services: []*astits.SDTDataService{{ServiceID: 0x9999, RunningStatus: 4}}}, ref.SecHdr{CNI: true, Version: 30})
+	s1 := sized(0x101, 183)
+	// s2: 183 bytes up to the inner section, the inner section, the CRC_32
+	d2 := &astits.SDTData{TransportStreamID: 0x102, OriginalNetworkID: 0x22}
+	svc2 := &astits.SDTDataService{ServiceID: 0x103, RunningStatus: 4}
+	d2.Services = []*astits.SDTDataService{svc2}
+	hdr := len(SecSDT(d2, ref.SecHdr{CNI: true})) - 4 + 2 // bytes in front of the descriptor body
+	svc2.Descriptors = fixLens([]*astits.Descriptor{{Tag: 0x86, UserDefined: append(fillBytes(183-hdr, 0x5a), inner...)}})
+	s2 := SecSDT(d2, ref.SecHdr{CNI: true})
+	// ... whose first byte is 0xFF (original_network_id searched for it): read as a table_id it ends the parsing of a
+	// unit cleanly, so that whatever is in front of it is delivered
+	for on := 0; on < 1<<16 && s2[len(s2)-4] != 0xff; on++ {
+		d2.OriginalNetworkID = uint16(on)
+		s2 = SecSDT(d2, ref.SecHdr{CNI: true})
+	}
+	if s2[len(s2)-4] != 0xff {
+		panic("c06ContinuousSI: no CRC_32 starting with 0xFF found")
+	}
+	if len(s2) != 183+len(inner)+4 {
+		panic(fmt.Sprintf("c06ContinuousSI: s2 is %d bytes", len(s2)))
+	}
+	s3, s4 := sized(0x104, 120), sized(0x105, 183+150)
+	cc := uint8(13)
+	si, _, _ := packContinuous(0x11, [][]byte{s1, s2, s3, s4, sized(0x106, 60)}, &cc)
+	c2 := uint8(4)
+	var pes []*ref.Pkt
+	for k := 0; k < 3; k++ {
+		pes = append(pes, Packetize(PESUnit(0x100, 0xe0, pesPayload(70+k, 184*2-14-5, seed), uint64(70+k), false), nil, &c2, false)...)
+	}
+	st := &c06Stream{Name: "continuous-si", PSI: map[uint16]bool{0x11: true}, Units: map[uint16][][]byte{}, LooseLoss: map[uint16]bool{0x11: true}}
+	lists := [][]*ref.Pkt{si, pes}
+	pos := make([]int, 2)
+	for _, k := range roundRobin(lists) {
+		st.Pkts = append(st.Pkts, lists[k][pos[k]])
+		u := pos[k]
+		if k == 1 {
+			u = pos[k] / 2
+		}
+		st.UnitOf = append(st.UnitOf, u)
+		pos[k]++
+	}
+	for k := 0; k < 3; k++ {
+		st.Units[0x100] = append(st.Units[0x100], PESUnit(0x100, 0xe0, pesPayload(70+k, 184*2-14-5, seed), uint64(70+k), false).Bytes)
+	}
+	return st
 }
 
 func c06Base(seed int64, kind string) *c06Stream {
+	if kind == "continuous-si" {
+		return c06ContinuousSI(seed)
+	}
 	long := kind == "long"
 	type pidUnits struct {
 		pid   uint16
@@ -414,6 +497,9 @@ func checkFaulted(st *c06Stream, clean map[uint16][]string, fs []fault) (sig, ms
 		if k != len(gg) {
 			return "loss-yields-altered-unit", fmt.Sprintf("PID %#x: a delivered unit is not byte-identical to a unit of the loss-free output (splice or foreign data)", pid)
 		}
+		if st.LooseLoss[pid] {
+			continue
+		}
 		// map clean data index -> unit index: a unit may deliver several data (sections)
 		for _, mi := range missing {
 			u := unitOfDatum(st, pid, clean, mi)
@@ -454,7 +540,7 @@ func checkC06(c *mc.Ctx) {
 	c.Ev.Rule = "(a) every single duplication, every single deletion, every burst and every pair of faults on well-formed base streams, outputs of the real Demuxer related as the statement demands; (b) all packet sequences up to the length bound over the alphabet {continuity delta dup/+1/+2} x {PUSI} x {payload, AF-only, TEI, discontinuity_indicator} for PID A plus packets of PID B, safety oracle on the delivered units; distinct_nontrivial = distinct fault sets / sequences"
 	c.Ev.Assumptions = append(c.Ev.Assumptions, "a duplicate is a byte-identical copy inserted immediately after the original (ISO 13818-1 2.4.3.3)",
 		"loss relation evaluated only for PIDs where fewer than 16 packets in a row are lost and a later payload packet of the PID survives")
-	for _, kind := range []string{"mixed", "long", "lookalike", "repeated-tables"} {
+	for _, kind := range []string{"mixed", "long", "lookalike", "repeated-tables", "continuous-si"} {
 		long := kind == "long"
 		st := c06Base(c.Seed, kind)
 		cleanOut := DemuxBytes(EncodePkts(st.Pkts))
